@@ -111,7 +111,7 @@ pub struct RG {
 }
 
 pub struct Built {
-    pub store: LpgStore,
+    pub store: std::sync::Arc<LpgStore>,
     pub rg: RG,
     /// position -> NodeId
     pub ids: Vec<NodeId>,
@@ -196,7 +196,7 @@ impl Case {
 
     /// Builds the store. Must be called inside `guard`.
     pub fn build(&self) -> Built {
-        let store = LpgStore::new();
+        let store = std::sync::Arc::new(LpgStore::new());
         let mut ids = Vec::new();
         let mut ghosts = Vec::new();
         for live in &self.nodes {
@@ -378,7 +378,6 @@ pub fn graph(max_n: usize, sign: Sign) -> impl Strategy<Value = Case> {
 pub struct Shape {
     pub parallel: bool,
     pub anti: bool,
-    pub selfloop: bool,
     pub multi_comp: bool,
     pub tie: bool,
     pub zero_cycle: bool,
@@ -389,13 +388,9 @@ impl Shape {
     pub fn of(case: &Case, rg: &RG) -> Shape {
         let mut parallel = false;
         let mut anti = false;
-        let mut selfloop = false;
         let mut tie = false;
         let wt = |e: &RE| if case.use_prop { e.w } else { 1.0 };
         for (i, a) in rg.edges.iter().enumerate() {
-            if a.s == a.d {
-                selfloop = true;
-            }
             for b in &rg.edges[i + 1..] {
                 if a.s == b.s && a.d == b.d {
                     parallel = true;
@@ -419,7 +414,6 @@ impl Shape {
         Shape {
             parallel,
             anti,
-            selfloop,
             multi_comp: ncomp >= 2,
             tie,
             zero_cycle,
